@@ -218,9 +218,10 @@ func init() {
 			}
 			obs = append(obs, Obligation{Rule: "TIME.no-struct-compare", Func: "-", Construct: "instant comparisons examined", Verdict: Proved,
 				Detail: fmt.Sprintf("%d Equal/Before/After/Compare calls on time.Time in the kernel; struct comparisons listed separately", ncmp)})
-			if ncmp < 3 {
+			if ncmp < 1 {
+				// (the three predicates may share one Compare call; TIME.order-mirror decides what each of them computes)
 				obs = append(obs, Obligation{Rule: "TIME.no-struct-compare", Func: "-", Construct: "coverage", Verdict: Undecided,
-					Detail: fmt.Sprintf("only %d instant-comparison calls found (time=, time<, time> alone need 3)", ncmp)})
+					Detail: fmt.Sprintf("only %d instant-comparison calls found (time=, time<, time> need at least one)", ncmp)})
 			}
 			return obs
 		}})
@@ -232,16 +233,17 @@ func init() {
 				fn   string
 				what string
 				ok   func(method string, recv, arg int) bool
+				rel  string // the relation operand0 REL operand1 the predicate must compute ("" for time-from)
 			}
 			specs := []spec{
-				{"lisp/lisplib/libtime.BuiltinTimeEq", "time=", func(m string, r, a int) bool { return m == "Equal" && r != a }},
+				{"lisp/lisplib/libtime.BuiltinTimeEq", "time=", func(m string, r, a int) bool { return m == "Equal" && r != a }, "=="},
 				{"lisp/lisplib/libtime.BuiltinTimeLT", "time<", func(m string, r, a int) bool {
 					return (m == "Before" && r == 0 && a == 1) || (m == "After" && r == 1 && a == 0)
-				}},
+				}, "<"},
 				{"lisp/lisplib/libtime.BuiltinTimeGT", "time>", func(m string, r, a int) bool {
 					return (m == "After" && r == 0 && a == 1) || (m == "Before" && r == 1 && a == 0)
-				}},
-				{"lisp/lisplib/libtime.BuiltinDurationBetween", "time-from", func(m string, r, a int) bool { return m == "Sub" && r == 1 && a == 0 }},
+				}, ">"},
+				{"lisp/lisplib/libtime.BuiltinDurationBetween", "time-from", func(m string, r, a int) bool { return m == "Sub" && r == 1 && a == 0 }, ""},
 			}
 			var obs []Obligation
 			for _, sp := range specs {
@@ -309,7 +311,23 @@ func init() {
 						obs = append(obs, mkOb(c, "TIME.order-mirror", u, construct, rs, Undecided, "cannot trace `"+types.ExprString(mcall)+"` back to args.Cells[0]/[1]", true))
 						continue
 					}
-					// the method result must be used directly (not negated / compared) except Compare idioms which are not accepted
+					// the three-way idiom: Bool(x.Compare(y) OP 0) is x OP y
+					if se.Sel.Name == "Compare" && sp.rel != "" {
+						if outer, ok := ast.Unparen(rs.Results[0]).(*ast.CallExpr); ok && len(outer.Args) == 1 {
+							if rel, ok := signTestRelation(info, outer.Args[0], func(e ast.Expr) bool { return ast.Unparen(e) == ast.Expr(mcall) }); ok {
+								if ri == 1 && ai == 0 {
+									rel = mirrorRel(rel)
+								}
+								if ri != ai && rel == sp.rel {
+									obs = append(obs, mkOb(c, "TIME.order-mirror", u, construct, rs, Proved, fmt.Sprintf("%s = operand%d.Compare(operand%d) tested against 0: operand0 %s operand1", sp.what, ri, ai, rel), true))
+								} else {
+									obs = append(obs, mkOb(c, "TIME.order-mirror", u, construct, rs, Violated, fmt.Sprintf("%s is computed as `%s`, i.e. operand0 %s operand1, not operand0 %s operand1: the three predicates no longer partition pairs of instants in agreement with time-from", sp.what, types.ExprString(rs.Results[0]), rel, sp.rel), true))
+								}
+								continue
+							}
+						}
+					}
+					// the method result must be used directly (not negated / compared)
 					direct := false
 					if outer, ok := ast.Unparen(rs.Results[0]).(*ast.CallExpr); ok && len(outer.Args) == 1 && ast.Unparen(outer.Args[0]) == ast.Expr(mcall) {
 						direct = true
@@ -325,6 +343,10 @@ func init() {
 					// predicates: `return compareTimes(env, args, time.Time.Before)` with
 					// `lisp.Bool(holds(t1, t2))` inside — holds(a, b) is a.Before(b)
 					if o, ok := timeOrderViaMethodExpr(c, u, ps[1], sp.what, sp.ok); ok {
+						obs = append(obs, o)
+						continue
+					}
+					if o, ok := timeOrderViaSignPredicate(c, u, ps[1], sp.what, sp.rel); ok && sp.rel != "" {
 						obs = append(obs, o)
 						continue
 					}
@@ -404,6 +426,127 @@ func timeOrderViaMethodExpr(c *Ctx, u FuncUnit, argsP types.Object, what string,
 				return mkOb(c, "TIME.order-mirror", u, what+" result#1", hr, Proved, fmt.Sprintf("%s = operand%d.%s(operand%d), through the method expression handed to %s", what, ri, method, ai, hu.Name()), true), true
 			}
 			return mkOb(c, "TIME.order-mirror", u, what+" result#1", hr, Violated, fmt.Sprintf("%s is computed as operand%d.%s(operand%d) (method expression handed to %s): the three predicates no longer partition pairs of instants in agreement with time-from", what, ri, method, ai, hu.Name()), true), true
+		}
+	}
+	return Obligation{}, false
+}
+
+// signTestRelation: e is `S OP 0` (or `0 OP S`) with S accepted by isSign and OP one of == != < <= > >=;
+// the relation is returned as it reads with S on the left.
+func signTestRelation(info *types.Info, e ast.Expr, isSign func(ast.Expr) bool) (string, bool) {
+	be, ok := ast.Unparen(e).(*ast.BinaryExpr)
+	if !ok {
+		return "", false
+	}
+	switch be.Op {
+	case token.EQL, token.NEQ, token.LSS, token.LEQ, token.GTR, token.GEQ:
+	default:
+		return "", false
+	}
+	if k, isC := intConst(info, be.Y); isC && k == 0 && isSign(be.X) {
+		return be.Op.String(), true
+	}
+	if k, isC := intConst(info, be.X); isC && k == 0 && isSign(be.Y) {
+		return mirrorRel(be.Op.String()), true
+	}
+	return "", false
+}
+
+func mirrorRel(r string) string {
+	switch r {
+	case "<":
+		return ">"
+	case ">":
+		return "<"
+	case "<=":
+		return ">="
+	case ">=":
+		return "<="
+	}
+	return r
+}
+
+// timeOrderViaSignPredicate: u returns H(…, args, …, func(sign int) bool { return sign OP 0 }) and H
+// returns a value built directly from holds(x.Compare(y)), holds being the parameter that received
+// the literal and x, y time operands traced to the argument cells: the predicate is x OP y.
+func timeOrderViaSignPredicate(c *Ctx, u FuncUnit, argsP types.Object, what, want string) (Obligation, bool) {
+	info := u.Pkg.TypesInfo
+	for _, rs := range returnsOf(u.Decl.Body) {
+		if len(rs.Results) != 1 {
+			continue
+		}
+		ce, ok := ast.Unparen(rs.Results[0]).(*ast.CallExpr)
+		if !ok {
+			continue
+		}
+		h := originOf(Callee(info, ce))
+		if h == nil || h.Pkg() != u.Obj.Pkg() {
+			continue
+		}
+		hd := c.declOf[h]
+		if hd == nil || hd.Body == nil {
+			continue
+		}
+		hu := FuncUnit{h, hd, c.pkgOf[hd]}
+		hps := paramObjs(hu)
+		var hArgs, hFn types.Object
+		rel := ""
+		for i, a := range ce.Args {
+			if i >= len(hps) {
+				continue
+			}
+			if identObj(info, a) == argsP {
+				hArgs = hps[i]
+			}
+			if fl, ok := ast.Unparen(a).(*ast.FuncLit); ok && fl.Type.Params != nil && len(fl.Type.Params.List) == 1 && len(fl.Type.Params.List[0].Names) == 1 && len(fl.Body.List) == 1 {
+				sp := info.Defs[fl.Type.Params.List[0].Names[0]]
+				if r, ok := fl.Body.List[0].(*ast.ReturnStmt); ok && len(r.Results) == 1 && sp != nil {
+					if rr, ok := signTestRelation(info, r.Results[0], func(e ast.Expr) bool { return identObj(info, e) == sp }); ok {
+						hFn, rel = hps[i], rr
+					}
+				}
+			}
+		}
+		if hArgs == nil || hFn == nil {
+			continue
+		}
+		hinfo := hu.Pkg.TypesInfo
+		idx := timeOperandIndex(c, hu, hArgs)
+		for _, hr := range returnsOf(hd.Body) {
+			if len(hr.Results) != 1 {
+				continue
+			}
+			outer, ok := ast.Unparen(hr.Results[0]).(*ast.CallExpr)
+			if !ok || len(outer.Args) != 1 {
+				continue
+			}
+			inner, ok := ast.Unparen(outer.Args[0]).(*ast.CallExpr)
+			if !ok || identObj(hinfo, inner.Fun) != hFn || len(inner.Args) != 1 {
+				continue
+			}
+			cmp, ok := ast.Unparen(inner.Args[0]).(*ast.CallExpr)
+			if !ok || len(cmp.Args) != 1 {
+				continue
+			}
+			se, ok := ast.Unparen(cmp.Fun).(*ast.SelectorExpr)
+			if !ok || se.Sel.Name != "Compare" {
+				continue
+			}
+			if f := Callee(hinfo, cmp); f == nil || f.Pkg() == nil || f.Pkg().Path() != "time" {
+				continue
+			}
+			ri, rok := idx[identObj(hinfo, se.X)]
+			ai, aok := idx[identObj(hinfo, cmp.Args[0])]
+			if !rok || !aok || ri == ai {
+				return mkOb(c, "TIME.order-mirror", u, what+" result#1", hr, Undecided, "cannot trace the operands of `"+types.ExprString(cmp)+"` in "+hu.Name()+" back to args.Cells[0]/[1]", true), true
+			}
+			if ri == 1 {
+				rel = mirrorRel(rel)
+			}
+			if rel == want {
+				return mkOb(c, "TIME.order-mirror", u, what+" result#1", hr, Proved, fmt.Sprintf("%s = operand0 %s operand1, through the sign test handed to %s over operand%d.Compare(operand%d)", what, rel, hu.Name(), ri, ai), true), true
+			}
+			return mkOb(c, "TIME.order-mirror", u, what+" result#1", hr, Violated, fmt.Sprintf("%s is computed as operand0 %s operand1 (sign test handed to %s), not operand0 %s operand1: the three predicates no longer partition pairs of instants in agreement with time-from", what, rel, hu.Name(), want), true), true
 		}
 	}
 	return Obligation{}, false
